@@ -54,14 +54,16 @@ Reason ==
                               ELSE LET r == J2kReason(h) IN IF r # "ok" THEN r ELSE "pk:" \o PkClass(E.stream))
   ELSE LET h == WalkJpeg(E.stream) IN IF ~h.ok THEN "malformed: " \o h.why ELSE JpegReason(h)
 
-Init == l = 1 /\ nacc = 0 /\ pk = [parsed |-> 0, skipped |-> 0, unparsed |-> 0] /\ rev = [agree |-> 0, differ |-> 0]
+Init == l = 1 /\ nacc = 0 /\ pk = [parsed |-> 0, skipped |-> 0, unparsed |-> 0] /\ rev = [agree |-> 0, differ |-> 0, tagree |-> 0, tdiffer |-> 0]
 Step ==
   /\ l <= Len(Tr) /\ l' = l + 1
   /\ IF E.ev = "j2krev"
      THEN \* a codestream written by the reference encoder J2kEnc and decoded by the library: informational (DESIGN.md 8)
-          LET ok == E.err = "" /\ E.out = E.src /\ E.gw = C.w /\ E.gh = C.h /\ E.gc = C.c /\ E.gp = C.p IN
-          /\ rev' = [rev EXCEPT !.agree = @ + (IF ok THEN 1 ELSE 0), !.differ = @ + (IF ok THEN 0 ELSE 1)]
-          /\ IF ok THEN TRUE ELSE PrintT("@@INFO|library decoder does not recover an image coded by the reference encoder: " \o ToString(C) \o " err=" \o E.err)
+          LET ok == E.err = "" /\ E.out = E.src /\ E.gw = C.w /\ E.gh = C.h /\ E.gc = C.c /\ E.gp = C.p
+              tiled == C.tw < C.w \/ C.th < C.h IN
+          /\ rev' = [rev EXCEPT !.agree = @ + (IF ok /\ ~tiled THEN 1 ELSE 0), !.differ = @ + (IF ~ok /\ ~tiled THEN 1 ELSE 0),
+                                 !.tagree = @ + (IF ok /\ tiled THEN 1 ELSE 0), !.tdiffer = @ + (IF ~ok /\ tiled THEN 1 ELSE 0)]
+          /\ IF ok \/ tiled THEN TRUE ELSE PrintT("@@INFO|library decoder does not recover an image coded by the reference encoder: " \o ToString(C) \o " err=" \o E.err)
      ELSE UNCHANGED rev
   /\ IF E.ev # "frame" THEN UNCHANGED <<nacc, pk>>
      ELSE LET r == Reason IN
@@ -74,7 +76,8 @@ Step ==
                PrintT("@@REJECT|" \o ToString(E.scn) \o "|" \o ToString(E.k) \o "|C16/wellformed/" \o C.api \o "/" \o why \o "|" \o ToString(C)) /\ UNCHANGED <<nacc, pk>>
 Finish == /\ l = Len(Tr) + 1 /\ PrintT("@@ACCEPT|" \o ToString(nacc)) /\ PrintT("@@DONE|" \o ToString(Len(Tr)))
           /\ PrintT("@@INFO|pk parsed=" \o ToString(pk.parsed) \o " skipped=" \o ToString(pk.skipped) \o " unparsed=" \o ToString(pk.unparsed)
-                    \o " ragree=" \o ToString(rev.agree) \o " rdiffer=" \o ToString(rev.differ))
+                    \o " ragree=" \o ToString(rev.agree) \o " rdiffer=" \o ToString(rev.differ)
+                    \o " tagree=" \o ToString(rev.tagree) \o " tdiffer=" \o ToString(rev.tdiffer))
           /\ l' = l + 1 /\ UNCHANGED <<nacc, pk, rev>>
 TraceSpec == Init /\ [][Step \/ Finish]_tvars
 =============================================================================
